@@ -1598,7 +1598,11 @@ def run(prop, seed, tier, extra_inputs=(), boost=1, kf=None):
         new_here, known_here = 0, 0
         for inp in inputs:
             try:
-                r = f(inp)
+                r = ops.with_timeout(f, inp, 30)
+            except ops.Timeout:
+                r = ["the operation did not terminate within 30 s"]
+            except MemoryError:
+                r = ["the operation exhausted memory"]
             except Exception as e:
                 r = [f"oracle run raised {type(e).__name__}: {e}"]
             res["evaluations"] += 1
